@@ -1646,7 +1646,17 @@ struct Value {
             }
 
             case QNumberType::Real: {
-                return QNumber64{SizeT64I(number.Real)}.Natural;
+                // Converting a double that the target type cannot hold is undefined; [2^63, 2^64) is in range here.
+                if (number.Real >= 9223372036854775808.0) {
+                    return ((number.Real < 18446744073709551616.0) ? SizeT64(number.Real) : ~SizeT64{0});
+                }
+
+                if (number.Real > -9223372036854775808.0) {
+                    return QNumber64{SizeT64I(number.Real)}.Natural;
+                }
+
+                // The lowest signed value (also for NaN, as the conversion gives on x86-64).
+                return (SizeT64{1} << 63U);
             }
 
             default: {
@@ -1665,7 +1675,16 @@ struct Value {
             }
 
             case QNumberType::Real: {
-                return SizeT64I(number.Real);
+                // Converting a double that the target type cannot hold is undefined: the ends of the range instead.
+                if (number.Real >= 9223372036854775808.0) {
+                    return SizeT64I(~SizeT64{0} >> 1U);
+                }
+
+                if (number.Real > -9223372036854775808.0) {
+                    return SizeT64I(number.Real);
+                }
+
+                return SizeT64I(-9223372036854775807LL - 1LL);
             }
 
             default: {
